@@ -350,5 +350,5 @@ def run_case(index, rng, tier):
 
 def plan(tier):
     if tier == "thorough":
-        return dict(cases=48000, shards=16, timeout=1800, min_nontrivial=5000)
-    return dict(cases=960, shards=16, timeout=240, min_nontrivial=100)
+        return dict(cases=144000, shards=16, timeout=3400, min_nontrivial=15000)
+    return dict(cases=2880, shards=16, timeout=400, min_nontrivial=300)
